@@ -69,8 +69,9 @@ PROPS["C08"] = {
     "level": "exploration",
     "technique": "runtime trace monitor: random operation histories on the real Transcript checked against a sponge model (state after every op, every challenge, the hook's event chain) with metamorphic dependence checks",
     "rule": "cases = histories of 1..=64 operations over read_felt / read_felt_vector(0..=300) / read_u64 / squeeze / squeeze_n / new_with_counter from random and extreme seeds; non-trivial = at least one absorb and one squeeze; distinct = distinct (seed, op list)",
-    "legs": [comp("transcript", "transcript", builds={"quick": COMP_Q[:1], "thorough": COMP_Q[:1]})],
-    "required_counters": ["squeezes_compared", "hook_events", "metamorphic_pairs"],
+    "legs": [comp("transcript", "transcript", builds={"quick": COMP_Q[:1], "thorough": COMP_Q[:1]}),
+             full("recorded", "recorded", t=FULL_SHIPPED)],
+    "required_counters": ["squeezes_compared", "hook_events", "metamorphic_pairs", "recorded_transcripts_equal", "grammar_ok"],
     "assumptions": TRUSTED[:1],
 }
 
@@ -78,8 +79,30 @@ PROPS["C09"] = {
     "level": "exploration",
     "technique": "runtime differential monitor: real verify_pow / pow Config::validate / UnsentCommitment::commit vs a leading-zero-bit oracle, with nonces ground by the oracle to exactly n-1, n, n+1 zero bits",
     "rule": "cases = (PoW hash, digest, n_bits, nonce): threshold triples for n in 0..=19 (quick) / 0..=24 (thorough), random triples with n in 0..=128, byte-swapped nonce/digest probes, all 256 config values (exhaustive), commit absorb-order/atomicity histories; non-trivial = decided within 2 bits of the threshold or an acceptance at n>=8",
-    "legs": [comp("pow", "pow")],
-    "required_counters": ["threshold.oracle_accept", "threshold.oracle_reject", "config_values", "commit.good_nonce"],
+    "legs": [comp("pow", "pow"), full("recorded", "recorded", t=FULL_SHIPPED)],
+    "required_counters": ["threshold.oracle_accept", "threshold.oracle_reject", "config_values", "commit.good_nonce", "pow_recorded_triples"],
     "assumptions": TRUSTED[:1] + ["acceptance at difficulties above 24 bits is only observed on the recorded Stone proofs (finding a preimage is the proof of work)"],
 }
+
+PROPS["C03"] = {
+    "level": "exploration",
+    "exhaustive": True,
+    "technique": "runtime matrix monitor: every honest proof (25 shipped Stone proofs read by an independent loader + the in-tree fixture) is verified as every layout under every (hash, stone) build; verdicts compared with a build-independent rule, returned hashes with address-based Pedersen chains, serde round trip and parser/CLI equality checked",
+    "rule": "cells = (honest proof, layout instantiation, hash build, stone build); the shipped matrix is enumerated completely (quick: the 3 builds that have shipped proofs, thorough: all 8); expected accept iff layout, stone and hash match; reject when layout or stone differ, when the PoW hash family differs or a committed layer is masked under another mask width; otherwise don't-care; every cell is non-trivial",
+    "legs": [full("matrix", "matrix")],
+    "required_counters": ["honest_accepted", "hash_pairs_equal_oracle", "roundtrip_same_verdict", "parser_equal_to_independent_loader"],
+    "min_evaluations": {"quick": 500, "thorough": 1400},
+    "assumptions": TRUSTED + ["the Stone version of a shipped file is taken from its file name; hash and friendly-layer count from the file contents"],
+}
+
+PROPS["C12"] = {
+    "level": "exploration",
+    "exhaustive": True,
+    "technique": "runtime exhaustive monitor: StarkDomains::new on all 18721 (t, c) pairs, generator orders checked by independent BigUint exponentiation",
+    "rule": "all (log_trace_domain_size, log_n_cosets) with sum in 0..=192; per pair: sizes are the powers of two, g^(2^e) == 1 and g^(2^(e-1)) == -1 for both generators (order exactly 2^e / 2^t), trace_generator == eval_generator^(2^c); every pair is distinct and non-trivial",
+    "legs": [full("domains", "domains", q=FULL_ONE, t=FULL_ONE)],
+    "min_evaluations": {"quick": 18721, "thorough": 18721},
+    "assumptions": TRUSTED[:1],
+}
+
 NOT_APPLICABLE = {}
